@@ -347,7 +347,7 @@ class Ctx:
         return all(o["ok"] for o in self.obligations)
 
 
-def lean_extra(ctx, module, names=None):
+def lean_extra(ctx, module, names=None, namespace="Unc"):
     """audit further theorems (all of a Props module, or the named ones) for this property"""
     ok, out = lake_build([module])
     ctx.oblige("lake build " + module, ok, "build", None if ok else out[-2000:])
@@ -360,7 +360,7 @@ def lean_extra(ctx, module, names=None):
         if n not in allnames:
             ctx.oblige("theorem %s exists in %s" % (n, module), False, "theorem")
     names = [n for n in names if n in allnames]
-    res, text, rc = audit_axioms(module, names)
+    res, text, rc = audit_axioms(module, names, namespace)
     for n in names:
         axs = res.get(n)
         good = axs is not None and set(axs) <= ALLOWED_AXIOMS
